@@ -74,6 +74,13 @@ def gen_cases(tier, seed):
         # time: each target must end up holding its own complete value (shared with C08's file mode)
         out.append({"seed": env.seed_for(seed, ID, tier, "siblings", i), "mode": "siblings", "siblings": True, "mechanism": "atomicity", "store": "siblings",
                     "path": "mixed", "present": False, "value": "small"})
+    for i in range(max(12, n // 20)):
+        # an ordinary (non-root) user whose existing target is READ-ONLY (a protected cached result; replacing it needs only directory permission): the writer
+        # is killed at one of its file operations, then the same user writes again
+        s = env.seed_for(seed, ID, tier, "readonly_kill", i)
+        r = random.Random(env.seed_for(s, "descriptor"))
+        out.append({"seed": s, "mode": "readonly_kill", "store": r.choice(["json", "pickle", "text", "binary", "staged_write", "staged_write_path"]), "path": r.choice(["str", "pathlib"]),
+                    "present": True, "value": r.choice(["small", "chunks"]), "filemode": r.choice([0o444, 0o444, 0o400, 0o555])})
     return out
 
 
@@ -289,9 +296,110 @@ def later_ops_ok(desc, path, r):
     return None
 
 
+def run_readonly_kill(desc):
+    import uberjob.stores as st  # noqa (everything is imported before privileges are dropped)
+    import encodings.utf_8  # noqa
+
+    r = random.Random(desc["seed"])
+    value, _ = make_value(desc["store"], desc["value"], r)
+    old_bytes = b"OLD-VALUE-" + bytes(r.getrandbits(8) for _ in range(r.randint(0, 40)))
+    UID = 65534
+    res = {"status": "ok", "counters": {"readonly_kill_cases": 1, "readonly_kill_points": 0, "after_kill_followups": 0}, "sets": {"stores": [desc["store"]]}, "nontrivial": True,
+           "sig": f"readonly_kill|{desc['store']}|{desc['path']}|{desc['value']}|{desc['filemode']}"}
+    if os.geteuid() != 0:
+        res["counters"]["readonly_kill_not_root"] = 1
+        res["nontrivial"] = False
+        return res
+    # the operations of a clean write, to know where it can be killed
+    d0 = tempfile.mkdtemp(prefix="vmon-c11k-")
+    try:
+        plan0 = fsfault.Plan()
+        p0 = os.path.join(d0, "target.dat")
+        with fsfault.Shim(plan0, d0):
+            writer(desc["store"], p0 if desc["path"] == "str" else pathlib.Path(p0))(value)
+        ops = list(plan0.ops)
+    finally:
+        shutil.rmtree(d0, ignore_errors=True)
+    bad = mech = None
+    K = len(ops)
+    ks = sorted(set(range(1, min(K, 2) + 1)) | set(range(max(1, K - 4), K + 1)) | {r.randint(1, K) for _ in range(4)})
+    for k in ks:
+        opname = ops[k - 1].split(":")[0]
+        d = tempfile.mkdtemp(prefix="vmon-c11k-")
+        try:
+            os.chmod(d, 0o777)
+            base = os.path.join(d, "target.dat")
+            with open(base, "wb") as f:
+                f.write(old_bytes)
+            os.chown(base, UID, UID)
+            os.chmod(base, desc["filemode"])
+            path = base if desc["path"] == "str" else pathlib.Path(base)
+            plan = fsfault.Plan(k=k, action="exit")
+            pid = os.fork()
+            if pid == 0:
+                try:
+                    os.setgid(UID)
+                    os.setuid(UID)
+                    with fsfault.Shim(plan, d):
+                        try:
+                            writer(desc["store"], path)(value)
+                        except BaseException:
+                            pass
+                finally:
+                    os._exit(0)
+            _, status = os.waitpid(pid, 0)
+            if not (os.WIFEXITED(status) and os.WEXITSTATUS(status) == 137):
+                return {"status": "inconclusive", "detail": f"[readonly_kill] the kill at operation {k} ({opname}) was never reached (child status {status})"}
+            res["counters"]["readonly_kill_points"] += 1
+            with open(base, "rb") as f:
+                now = f.read()
+            if now != old_bytes and opname != "replace":
+                bad, mech = f"killed at operation {k} ({opname}) of a write over a read-only target: the target no longer holds the complete previous value", "atomicity"
+                break
+            rfd, wfd = os.pipe()
+            pid = os.fork()
+            if pid == 0:
+                code = 0
+                try:
+                    os.close(rfd)
+                    os.setgid(UID)
+                    os.setuid(UID)
+                    msg = later_ops_ok(desc, path, r)
+                    os.write(wfd, (msg or "").encode()[:900])
+                except BaseException as e:  # noqa
+                    os.write(wfd, f"harness error {e!r}".encode()[:900])
+                    code = 4
+                finally:
+                    os._exit(code)
+            os.close(wfd)
+            chunks = []
+            while True:
+                b = os.read(rfd, 4096)
+                if not b:
+                    break
+                chunks.append(b)
+            os.close(rfd)
+            os.waitpid(pid, 0)
+            msg = b"".join(chunks).decode(errors="replace")
+            res["counters"]["after_kill_followups"] += 1
+            if msg.startswith("harness error"):
+                return {"status": "inconclusive", "detail": f"[readonly_kill] {msg}"}
+            if msg:
+                bad, mech = (f"an ordinary user (uid {UID}) whose target is read-only (mode {desc['filemode']:o}) was killed at operation {k} ({opname}) of a write; "
+                             f"the same user's next write: {msg}"), "leftover-disturbs"
+                break
+        finally:
+            shutil.rmtree(d, ignore_errors=True)
+    if bad:
+        res.update(status="violation", detail=f"[{desc['store']} {desc['path']} readonly_kill] {bad}", mechanism=mech)
+    return res
+
+
 def run_case(desc):
     if desc["mode"] == "strace":
         return run_strace(desc)
+    if desc["mode"] == "readonly_kill":
+        return run_readonly_kill(desc)
     if desc["mode"] == "siblings":
         from vmon.checks import c08_file
 
